@@ -410,7 +410,7 @@ int main(int argc, char **argv) {
       "9 jobs (encode+decode of meshes with Edgebreaker/sequential coders, kd-tree and sequential point clouds, metadata, OBJ and PLY "
       "parsing/writing, keyframe animation), each on its own objects; scheduling points = every operator new/delete of a job thread; all "
       "schedules of every ORDERED job pair (incl. a job with itself) with at most 0 and 1 preemptions, bound 2 for selected pairs (quick) / "
-      "all pairs but the kd-tree job (thorough), three threads with at most 1 preemption; a second build (-finstrument-functions) makes "
+      "every ordered pair of the five smallest jobs plus two self-pairs (thorough), three threads with at most 1 preemption; a second build (-finstrument-functions) makes "
       "every function entry (1e4..1.8e5 per job) a scheduling point as well: all schedules with at most 1 preemption for selected pairs; states = distinct (job set, results) outcomes; non-trivial = "
       "schedules with at least one context switch inside a job";
   R.explanation =
@@ -640,13 +640,14 @@ int main(int argc, char **argv) {
   add_bound2("pairs_preemption_bound_2_selected", {{6, 8}, {8, 8}, {6, 6}}, true, false);
   {
     std::vector<std::pair<int, int>> all;
-    // every ordered pair of the jobs with a moderate number of scheduling points (the kd-tree job has 2828 points:
-    // its pairs are covered at bound 1 and by one bound-2 pair with the smallest job)
-    for (int a = 0; a < kNumJobs; ++a)
-      for (int b = 0; b < kNumJobs; ++b)
-        if (a != 3 && b != 3) all.push_back({a, b});
+    // every ordered pair of the five jobs with the fewest scheduling points (1.5e6 schedules), plus the Edgebreaker job and
+    // the sequential cloud job each with itself; all other pairs are covered at bound 1 (the kd-tree job alone has 2828 points)
+    for (int a : {2, 5, 6, 7, 8})
+      for (int b : {2, 5, 6, 7, 8}) all.push_back({a, b});
+    all.push_back({0, 0});
+    all.push_back({4, 4});
     all.push_back({8, 3});
-    add_bound2("pairs_preemption_bound_2_all_but_kdtree", all, false, true);
+    add_bound2("pairs_preemption_bound_2_small_jobs", all, false, true);
   }
   // three threads, at most one preemption: T0 runs i points, then the other two in both orders, then T0 finishes
   {
